@@ -1,6 +1,6 @@
 #!/bin/bash
 # tryseed.sh <patch.diff> <PROP>...  : apply patch to /repo, run the checks into a scratch evidence dir, revert.
-patch=$1; shift
+patch=$(realpath "$1"); shift
 git -C /repo apply "$patch" || { echo "cannot apply $patch"; exit 2; }
 trap 'git -C /repo apply -R "$patch"' EXIT
 for p in "$@"; do
